@@ -111,6 +111,7 @@ def opsubst(body_src):
 
 def build(contracts):
     u = Unit('round', contracts)
+    u.trusted.append('Offset::fix returns a FixedOffset with |offset| < 24 h for EVERY implementation of the trait (stated as the trait method\'s postcondition: it is the type invariant of FixedOffset, whose only constructors east_opt / west_opt enforce it)')
     u.lemma_owner = {'calendar': 'date', 'rust_div': 'timedelta'}
     u.rlimit = 120
     u.raw(header(P.HEADER) + P.STD_SPECS + P.EXPECT + P.RUST_DIV_AX + P.CALENDAR_AX + '''
